@@ -20,6 +20,12 @@ Inductive hop_mode :=
 | Fixed            (* not a template: parameter types are those of the class (type_trait_take_t<...>) *)
 | NoArgs.
 
+(* how the mem_fun(obj, method) factories hand the method pointer to the functor's constructor *)
+Inductive memptr_pass :=
+| MPImplicit       (* the parameter itself: only the implicit pointer-to-member conversion (method of the object's class or of a base) *)
+| MPExplicit       (* through an explicit cast: also the unchecked derived-to-base direction *)
+| MPUnrecognised.
+
 (* arithmetic of the template arguments of tuple_start<>/tuple_end<> *)
 Inductive aexp :=
 | ALoc | ASize | AConst (z : Z) | ANeg (a : aexp)
